@@ -56,6 +56,7 @@ VARIABLES srv,        \* "run" | "stopAgents" | "stopRemotes" | "done"
           inbox,      \* [URIs \X (1..MaxInst) -> Seq([r, u, op])]
           linked,     \* [URIs -> SUBSET Remotes]
           cur,        \* [URIs \X (1..MaxInst) -> 0..MaxInst] the instance's state: number of the instance that wrote it
+          evq,        \* [URIs \X (1..MaxInst) -> Seq(0..MaxInst)] events the lane produced, not yet broadcast by the runtime
           store,      \* [URIs -> 0..MaxInst] persisted state
           due,        \* instances that have to begin stopping
           nohold,     \* instances that failed (their task is over: nothing to hold)
@@ -66,7 +67,7 @@ VARIABLES srv,        \* "run" | "stopAgents" | "stopRemotes" | "done"
           burst,      \* envelopes written since the system last moved
           lastAct     \* the step just taken and what it makes observable
 
-vars == <<srv, rem, peerShut, wire, pend, cache, findq, resolving, chan, cnt, ist, imeta, att, inbox, linked, cur, store,
+vars == <<srv, rem, peerShut, wire, pend, cache, findq, resolving, chan, cnt, ist, imeta, att, inbox, linked, cur, evq, store,
           due, nohold, released, lost, ks, sent, burst, lastAct>>
 
 Insts == URIs \X (1..MaxInst)
@@ -91,8 +92,10 @@ Open(r) == rem[r] = "open"
 Live(i) == ist[i] \in {"starting", "running", "stopping"}
 Recv(r, kind, u, b) == [k |-> "recv", r |-> r, kind |-> kind, u |-> u, b |-> b]
 \* what the linked remotes of u read when the instance closes its links
+\* (while the plane is stopping the remote's outgoing task may see its stop signal before the frame: `opt`)
 Unlinks(u) == [j \in 1..Cardinality({r \in linked[u] : Open(r)}) |->
-                 Recv(SetToSeq({r \in linked[u] : Open(r)})[j], "unlinked", u, "stop")]
+                 [k |-> "recv", r |-> SetToSeq({r \in linked[u] : Open(r)})[j], kind |-> "unlinked", u |-> u, b |-> "stop",
+                  opt |-> (srv # "run")]]
 
 Init == /\ srv = "run"
         /\ rem = [r \in Remotes |-> "none"]
@@ -110,6 +113,7 @@ Init == /\ srv = "run"
         /\ inbox = [i \in Insts |-> <<>>]
         /\ linked = [u \in URIs |-> {}]
         /\ cur = [i \in Insts |-> 0]
+        /\ evq = [i \in Insts |-> <<>>]
         /\ store = [u \in URIs |-> 0]
         /\ due = {}
         /\ nohold = {}
@@ -126,7 +130,7 @@ Connect(r) ==
     /\ rem' = [rem EXCEPT ![r] = "open"]
     /\ burst' = 0
     /\ lastAct' = [k |-> "connect", r |-> r]
-    /\ UNCHANGED <<srv, peerShut, wire, pend, cache, findq, resolving, chan, cnt, ist, imeta, att, inbox, linked, cur, store,
+    /\ UNCHANGED <<srv, peerShut, wire, pend, cache, findq, resolving, chan, cnt, ist, imeta, att, inbox, linked, cur, evq, store,
                    due, nohold, released, lost, ks, sent>>
 
 Send(r, u, op) ==
@@ -135,7 +139,7 @@ Send(r, u, op) ==
     /\ sent' = sent + 1
     /\ burst' = burst + 1
     /\ lastAct' = [k |-> "send", r |-> r, u |-> u, op |-> op]
-    /\ UNCHANGED <<srv, rem, peerShut, pend, cache, findq, resolving, chan, cnt, ist, imeta, att, inbox, linked, cur, store,
+    /\ UNCHANGED <<srv, rem, peerShut, pend, cache, findq, resolving, chan, cnt, ist, imeta, att, inbox, linked, cur, evq, store,
                    due, nohold, released, lost, ks>>
 
 Disconnect(r) ==
@@ -144,7 +148,7 @@ Disconnect(r) ==
     /\ wire' = [wire EXCEPT ![r] = Append(@, CloseMark)]
     /\ burst' = 0
     /\ lastAct' = [k |-> "disconnect", r |-> r]
-    /\ UNCHANGED <<srv, rem, pend, cache, findq, resolving, chan, cnt, ist, imeta, att, inbox, linked, cur, store,
+    /\ UNCHANGED <<srv, rem, pend, cache, findq, resolving, chan, cnt, ist, imeta, att, inbox, linked, cur, evq, store,
                    due, nohold, released, lost, ks, sent>>
 
 Timeout ==
@@ -153,7 +157,7 @@ Timeout ==
     /\ due' = due \cup {i \in Insts : ist[i] = "running"}
     /\ burst' = 0
     /\ lastAct' = [k |-> "timeout"]
-    /\ UNCHANGED <<srv, rem, peerShut, wire, pend, cache, findq, resolving, chan, cnt, ist, imeta, att, inbox, linked, cur,
+    /\ UNCHANGED <<srv, rem, peerShut, wire, pend, cache, findq, resolving, chan, cnt, ist, imeta, att, inbox, linked, cur, evq,
                    store, nohold, released, lost, ks, sent>>
 
 Fail(u) ==
@@ -162,7 +166,7 @@ Fail(u) ==
     /\ nohold' = nohold \cup {<<u, chan[u]>>}
     /\ burst' = 0
     /\ lastAct' = [k |-> "fail", u |-> u]
-    /\ UNCHANGED <<srv, rem, peerShut, wire, pend, cache, findq, resolving, chan, cnt, ist, imeta, att, inbox, linked, cur,
+    /\ UNCHANGED <<srv, rem, peerShut, wire, pend, cache, findq, resolving, chan, cnt, ist, imeta, att, inbox, linked, cur, evq,
                    store, released, lost, ks, sent>>
 
 Release(u) ==
@@ -171,7 +175,7 @@ Release(u) ==
                              /\ released' = released \cup {<<u, n>>}
     /\ burst' = 0
     /\ lastAct' = [k |-> "release", u |-> u]
-    /\ UNCHANGED <<srv, rem, peerShut, wire, pend, cache, findq, resolving, chan, cnt, ist, imeta, att, inbox, linked, cur,
+    /\ UNCHANGED <<srv, rem, peerShut, wire, pend, cache, findq, resolving, chan, cnt, ist, imeta, att, inbox, linked, cur, evq,
                    store, due, nohold, lost, ks, sent>>
 
 Shutdown ==
@@ -180,7 +184,7 @@ Shutdown ==
     /\ due' = due \cup {i \in Insts : ist[i] = "running"}
     /\ burst' = 0
     /\ lastAct' = [k |-> "shutdown"]
-    /\ UNCHANGED <<rem, peerShut, wire, pend, cache, findq, resolving, chan, cnt, ist, imeta, att, inbox, linked, cur, store,
+    /\ UNCHANGED <<rem, peerShut, wire, pend, cache, findq, resolving, chan, cnt, ist, imeta, att, inbox, linked, cur, evq, store,
                    nohold, released, lost, ks, sent>>
 
 \* ------------------------------------------------------------------------------------------------ the remote's incoming task
@@ -210,7 +214,7 @@ RemoteTake(r) ==
             /\ wire' = [wire EXCEPT ![r] = Tail(@)]
             /\ lastAct' = [k |-> "find_req", r |-> r, u |-> m.u, o |-> <<>>]
             /\ UNCHANGED <<rem, inbox, linked, lost>>
-    /\ UNCHANGED <<srv, peerShut, resolving, chan, cnt, ist, imeta, att, cur, store, due, nohold, released, ks, sent>>
+    /\ UNCHANGED <<srv, peerShut, resolving, chan, cnt, ist, imeta, att, cur, evq, store, due, nohold, released, ks, sent>>
 
 \* ------------------------------------------------------------------------------------------------ the server task
 NewInstance(r, u) ==
@@ -253,19 +257,20 @@ Find ==
               /\ resolving' = resolving \cup {q}
               /\ lastAct' = [k |-> "check", r |-> q.r, u |-> q.u, o |-> <<>>]
               /\ UNCHANGED <<pend, lost, chan, cnt, ist, imeta, att>>
-    /\ UNCHANGED <<srv, rem, peerShut, wire, cache, inbox, linked, cur, store, due, nohold, released, ks, sent>>
+    /\ UNCHANGED <<srv, rem, peerShut, wire, cache, inbox, linked, cur, evq, store, due, nohold, released, ks, sent>>
 
 Register(q) ==
     /\ q \in resolving
     /\ resolving' = resolving \ {q}
     /\ NewInstance(q.r, q.u)
     /\ burst' = 0
-    /\ UNCHANGED <<srv, rem, peerShut, wire, pend, cache, findq, inbox, linked, cur, store, due, nohold, released, lost, ks, sent>>
+    /\ UNCHANGED <<srv, rem, peerShut, wire, pend, cache, findq, inbox, linked, cur, evq, store, due, nohold, released, lost, ks, sent>>
 
 InstStart(i) ==
     /\ ist[i] = "starting"
     /\ ist' = [ist EXCEPT ![i] = "running"]
     /\ cur' = [cur EXCEPT ![i] = IF Persist THEN store[i[1]] ELSE 0]
+    /\ UNCHANGED evq
     /\ due' = IF srv # "run" THEN due \cup {i} ELSE due
     /\ burst' = 0
     /\ lastAct' = [k |-> "inst_start", u |-> i[1], o |-> <<[k |-> "started", u |-> i[1], n |-> i[2], restored |-> cur'[i]]>>]
@@ -306,28 +311,27 @@ Attach(a) ==
             /\ lastAct' = [k |-> "attach_fail", r |-> a.r, u |-> a.u, kf |-> IF srv = "run" THEN "KS1" ELSE "",
                            o |-> <<[k |-> "closed", r |-> a.r, code |-> 1001], [k |-> "eof", r |-> a.r]>>]
             /\ UNCHANGED inbox
-    /\ UNCHANGED <<srv, peerShut, findq, resolving, chan, cnt, ist, imeta, cur, store, due, nohold, released, sent>>
+    /\ UNCHANGED <<srv, peerShut, findq, resolving, chan, cnt, ist, imeta, cur, evq, store, due, nohold, released, sent>>
 
 AgentRead(i) ==
     /\ ist[i] = "running" /\ inbox[i] # <<>> /\ i \notin due
     /\ burst' = 0
     /\ LET m == Head(inbox[i])
            u == i[1]
-           n == i[2]
-           evs(w) == [j \in 1..Cardinality({r \in linked[u] : Open(r)}) |->
-                        Recv(SetToSeq({r \in linked[u] : Open(r)})[j], "event", u, ToString(w))] IN
+           n == i[2] IN
        /\ inbox' = [inbox EXCEPT ![i] = Tail(@)]
        /\ CASE m.op = "command" ->
                  /\ cur' = [cur EXCEPT ![i] = n]
                  /\ store' = IF Persist THEN [store EXCEPT ![u] = n] ELSE store
+                 /\ evq' = [evq EXCEPT ![i] = Append(@, n)]
                  /\ lastAct' = [k |-> "agent_read", u |-> u, op |-> m.op,
-                                o |-> <<[k |-> "deliver", u |-> u, n |-> n, op |-> "command"]>> \o evs(n)]
+                                o |-> <<[k |-> "deliver", u |-> u, n |-> n, op |-> "command"]>>]
                  /\ UNCHANGED linked
             [] m.op = "link" ->
                  /\ linked' = [linked EXCEPT ![u] = @ \cup {m.r}]
                  /\ lastAct' = [k |-> "agent_read", u |-> u, op |-> m.op,
                                 o |-> IF Open(m.r) THEN <<Recv(m.r, "linked", u, "")>> ELSE <<>>]
-                 /\ UNCHANGED <<cur, store>>
+                 /\ UNCHANGED <<cur, evq, store>>
             [] m.op = "sync" ->
                  /\ linked' = [linked EXCEPT ![u] = @ \cup {m.r}]
                  /\ lastAct' = [k |-> "agent_read", u |-> u, op |-> m.op,
@@ -335,14 +339,26 @@ AgentRead(i) ==
                                       (IF ~Open(m.r) THEN <<>> ELSE
                                        (IF m.r \in linked[u] THEN <<>> ELSE <<Recv(m.r, "linked", u, "")>>) \o
                                        <<Recv(m.r, "event", u, ToString(cur[i])), Recv(m.r, "synced", u, "")>>)]
-                 /\ UNCHANGED <<cur, store>>
+                 /\ UNCHANGED <<cur, evq, store>>
             [] m.op = "unlink" ->
                  /\ linked' = [linked EXCEPT ![u] = @ \ {m.r}]
                  /\ lastAct' = [k |-> "agent_read", u |-> u, op |-> m.op,
                                 o |-> IF m.r \in linked[u] /\ Open(m.r) THEN <<Recv(m.r, "unlinked", u, "closed")>> ELSE <<>>]
-                 /\ UNCHANGED <<cur, store>>
+                 /\ UNCHANGED <<cur, evq, store>>
     /\ UNCHANGED <<srv, rem, peerShut, wire, pend, cache, findq, resolving, chan, cnt, ist, imeta, att, due, nohold, released,
                    lost, ks, sent>>
+
+\* the runtime broadcasts the next event of the lane to the remotes linked NOW (a link request that was handled after
+\* the command but before its event left still gets the event)
+Emit(i) ==
+    /\ ist[i] = "running" /\ evq[i] # <<>> /\ i \notin due
+    /\ evq' = [evq EXCEPT ![i] = Tail(@)]
+    /\ burst' = 0
+    /\ LET u == i[1]
+           tg == SetToSeq({r \in linked[u] : Open(r)}) IN
+       lastAct' = [k |-> "emit", u |-> u, o |-> [j \in 1..Len(tg) |-> Recv(tg[j], "event", u, ToString(Head(evq[i])))]]
+    /\ UNCHANGED <<srv, rem, peerShut, wire, pend, cache, findq, resolving, chan, cnt, ist, imeta, att, inbox, linked, cur, store,
+                   due, nohold, released, lost, ks, sent>>
 
 StopBegin(i) ==
     /\ i \in due /\ ist[i] = "running"
@@ -354,6 +370,7 @@ StopBegin(i) ==
     /\ burst' = 0
     /\ lastAct' = [k |-> "stop_begin", u |-> i[1],
                    o |-> <<[k |-> IF i \in nohold THEN "failed" ELSE "stopping", u |-> i[1], n |-> i[2]]>> \o Unlinks(i[1])]
+    /\ evq' = [evq EXCEPT ![i] = <<>>]
     /\ UNCHANGED <<srv, rem, peerShut, wire, pend, cache, findq, resolving, chan, cnt, imeta, att, cur, store, nohold,
                    released, ks, sent>>
 
@@ -364,17 +381,21 @@ StopEnd(i) ==
     /\ burst' = 0
     /\ lastAct' = [k |-> "stop_end", u |-> i[1],
                    o |-> IF i \in nohold THEN <<>> ELSE <<[k |-> "stopped", u |-> i[1], n |-> i[2]]>>]
-    /\ UNCHANGED <<srv, rem, peerShut, wire, pend, cache, findq, resolving, chan, cnt, imeta, att, inbox, linked, cur, store,
+    /\ UNCHANGED <<srv, rem, peerShut, wire, pend, cache, findq, resolving, chan, cnt, imeta, att, inbox, linked, cur, evq, store,
                    due, nohold, released, lost, ks, sent>>
 
 Reap(i) ==
     /\ ist[i] = "done"
     /\ ist' = [ist EXCEPT ![i] = "reaped"]
     /\ chan' = [chan EXCEPT ![i[1]] = 0]            \* agent_channels.remove(node): by name
+    /\ cur' = [cur EXCEPT ![i] = 0]                 \* (nothing of the instance is left: keeps the state space small)
+    /\ UNCHANGED evq
+    /\ nohold' = nohold \ {i}
+    /\ released' = released \ {i}
     /\ burst' = 0
     /\ lastAct' = [k |-> "reap", u |-> i[1], o |-> <<>>]
-    /\ UNCHANGED <<srv, rem, peerShut, wire, pend, cache, findq, resolving, cnt, imeta, att, inbox, linked, cur, store, due,
-                   nohold, released, lost, ks, sent>>
+    /\ UNCHANGED <<srv, rem, peerShut, wire, pend, cache, findq, resolving, cnt, imeta, att, inbox, linked, store, due,
+                   lost, ks, sent>>
 
 StopRemotes ==
     /\ srv = "stopAgents"
@@ -382,7 +403,7 @@ StopRemotes ==
     /\ srv' = "stopRemotes"
     /\ burst' = 0
     /\ lastAct' = [k |-> "stop_remotes", o |-> <<>>]
-    /\ UNCHANGED <<rem, peerShut, wire, pend, cache, findq, resolving, chan, cnt, ist, imeta, att, inbox, linked, cur, store,
+    /\ UNCHANGED <<rem, peerShut, wire, pend, cache, findq, resolving, chan, cnt, ist, imeta, att, inbox, linked, cur, evq, store,
                    due, nohold, released, lost, ks, sent>>
 
 RemoteStop(r) ==
@@ -391,7 +412,7 @@ RemoteStop(r) ==
     /\ lost' = IF wire[r] # <<>> \/ pend[r] # NoEnv THEN lost \cup {"shutdown"} ELSE lost
     /\ burst' = 0
     /\ lastAct' = [k |-> "remote_stop", r |-> r, o |-> <<[k |-> "closed", r |-> r, code |-> 1001], [k |-> "eof", r |-> r]>>]
-    /\ UNCHANGED <<srv, peerShut, findq, resolving, chan, cnt, ist, imeta, att, inbox, cur, store, due, nohold, released, ks, sent>>
+    /\ UNCHANGED <<srv, peerShut, findq, resolving, chan, cnt, ist, imeta, att, inbox, cur, evq, store, due, nohold, released, ks, sent>>
 
 ServerEnd ==
     /\ srv = "stopRemotes"
@@ -399,7 +420,7 @@ ServerEnd ==
     /\ srv' = "done"
     /\ burst' = 0
     /\ lastAct' = [k |-> "server_end", o |-> <<[k |-> "server_end"]>>]
-    /\ UNCHANGED <<rem, peerShut, wire, pend, cache, findq, resolving, chan, cnt, ist, imeta, att, inbox, linked, cur, store,
+    /\ UNCHANGED <<rem, peerShut, wire, pend, cache, findq, resolving, chan, cnt, ist, imeta, att, inbox, linked, cur, evq, store,
                    due, nohold, released, lost, ks, sent>>
 
 EnvNext == \/ \E r \in Remotes : Connect(r) \/ Disconnect(r)
@@ -409,7 +430,7 @@ EnvNext == \/ \E r \in Remotes : Connect(r) \/ Disconnect(r)
 SysNext == \/ \E r \in Remotes : RemoteTake(r) \/ RemoteStop(r)
            \/ Find
            \/ \E q \in resolving : Register(q)
-           \/ \E i \in Insts : InstStart(i) \/ AgentRead(i) \/ StopBegin(i) \/ StopEnd(i) \/ Reap(i)
+           \/ \E i \in Insts : InstStart(i) \/ AgentRead(i) \/ Emit(i) \/ StopBegin(i) \/ StopEnd(i) \/ Reap(i)
            \/ \E a \in att : Attach(a)
            \/ StopRemotes \/ ServerEnd
 Next == EnvNext \/ SysNext
@@ -466,6 +487,6 @@ LiveSpec == Init /\ [][Next]_vars /\ Fairness
 ShutdownCompletes == (srv = "stopAgents" /\ ~Hold) ~> (srv = "done")
 
 Bound == sent <= MaxSend
-View == <<srv, rem, peerShut, wire, pend, cache, findq, resolving, chan, cnt, ist, imeta, att, inbox, linked, cur, store,
+View == <<srv, rem, peerShut, wire, pend, cache, findq, resolving, chan, cnt, ist, att, inbox, linked, cur, evq, store,
           due, nohold, released, burst>>
 =============================================================================
